@@ -2,9 +2,9 @@
 # round-8 format: worktree holds A.diff/A_demo.py/A_notes.txt and B.* ; usage: trymutant2.sh <worktree> <A|B> <Cnn> [more Cnn...]
 wt="$1"; x="$2"; shift; shift
 cd "$wt" || exit 2
-git checkout -q -- cutplace
+git checkout -q -- cutplace; git reset -q --hard
 PYTHONPATH=$wt /venv/bin/python ${x}_demo.py >/tmp/demo_without.out 2>&1; wo=$?
-git apply ${x}.diff || { echo "apply failed"; exit 2; }
+git apply ${x}.diff 2>/dev/null || git apply --3way ${x}.diff 2>/dev/null || { echo "apply failed"; exit 2; }
 PYTHONPATH=$wt /venv/bin/python ${x}_demo.py >/tmp/demo_with.out 2>&1; w=$?
 echo "$x: demo with-change exit=$w  without exit=$wo   pytest: $(PYTHONPATH=$wt /venv/bin/python -m pytest -q -p no:cacheprovider --timeout=900 --continue-on-collection-errors 2>&1 | tail -1)"
 for pid in "$@"; do
@@ -14,4 +14,4 @@ for pid in "$@"; do
     if [ $code -eq 1 ]; then break; fi
   done
 done
-git checkout -q -- cutplace
+git checkout -q -- cutplace; git reset -q --hard
